@@ -54,7 +54,8 @@ FAMILIES = {
 
 DESIGN = {
     "quick": {"Conns": '{"c1"}', "MaxReq": "2", "FrameKinds": '{"op", "unbind", "partial", "bad"}'},
-    "thorough": {"Conns": '{"c1", "c2"}', "MaxReq": "2", "FrameKinds": '{"op", "unbind", "partial", "bad"}'},
+    # two connections: 25.8 M distinct states (134 M generated), about 5 minutes with 12 workers; MaxReq 2 with four frame kinds did not finish in 50 minutes
+    "thorough": {"Conns": '{"c1", "c2"}', "MaxReq": "1", "FrameKinds": '{"op", "unbind", "bad"}'},
 }
 DESIGN_INV = ["ReqIDsInOrder", "NothingAfterUnbind", "Alive", "OnCloseAtMostOnce", "OnCloseAfterHandlers", "SocketClosedAfterHandlers",
               "ConnIDsUnique", "QuiescentAfterStop", "ReadyImpliesListening", "NoReadyOnListenFailure"]
@@ -283,7 +284,7 @@ def check(run, pid, families, extra=None):
     q = run.quick()
     run.build()
     live = scen.design_check(run, LIVE, DESIGN_INV, properties=LIVE_PROPS, workers=4)
-    mc = live if q else scen.design_check(run, DESIGN["thorough"], DESIGN_INV, workers=8)
+    mc = live if q else scen.design_check(run, DESIGN["thorough"], DESIGN_INV, workers=12, timeout=5400)
     scenarios, stats = run_families(run, families, cap=1200 if q else None)
     rows, trace = scen.replay(run, scenarios, par=8)
     res = scen.validate(run, trace, first=ATTR[pid]["inv"])
@@ -291,6 +292,9 @@ def check(run, pid, families, extra=None):
     # refinement: every recorded execution (its per-goroutine event sequences) is a behaviour of Gldap.tla
     racc, rrej, rn, rskip = refine.check(run, rows, scenarios if not q else scenarios[:600])
     viols += refine.violations(pid, rrej, rows, scenarios)
+    ntamper, slipped = refine.selftest(run, rows, scenarios)
+    if slipped:
+        raise vlib.Infra("refinement check accepts corrupted traces: %s" % slipped)
     nextra = 0
     if extra:
         ev, nextra = extra(run)
@@ -303,7 +307,7 @@ def check(run, pid, families, extra=None):
                         "trace": [[r["ev"], r["c"], r["i"], r["val"]] for r in rows if r.get("scen") == sample["id"]][:40]}],
            "evaluations": nenv, "distinct_nontrivial": len({json.dumps([e for e in s["behaviour"] if e["a"] in scen.ENV]) for s in scenarios if any(e["hold"] or e["a"] in ("stop", "close", "panic") for e in s["behaviour"])}),
            "families": stats, "trace_events": len(rows),
-           "refinement": {"traces": rn, "accepted": len(racc), "rejected": len(rrej), "not_modelled": rskip,
+           "refinement": {"traces": rn, "accepted": len(racc), "rejected": len(rrej), "not_modelled": rskip, "corrupted_traces_rejected": ntamper,
                           "rule": "GldapRefine.tla: per-goroutine event queues (gates of server.go/conn.go, handler entry/exit, OnClose, Stop/Run, client actions) "
                                   "interleaved by TLC under Gldap's actions; a trace is accepted when every event is consumed"},
            "rule": "TLC enumerates the behaviours of Scen.tla (Gldap.tla in quiescent normal form) up to the family's number of environment actions, "
